@@ -1,0 +1,19 @@
+//go:build verif
+
+// Contracts for table import (C11: "table export/import"); comment-only, read by /verif/govc, never compiled into olric.
+//
+// Import hands every entry of a received table to the merge callback. A merge that fails must not be lost: the
+// sender drops its copy of the table as soon as Import reports success.
+
+package kvstore
+
+// The iteration stops early only with the callback's error recorded in err.
+//@ func (k *KVStore) Import$1(hkey uint64, e storage.Entry) bool
+//@   props C11
+//@   requires #callback: f != nil
+//@   ensures #stops_only_with_the_error_recorded [C11]: !result ==> err != nil
+//@   ensures #continues_only_without_error [C11]: result ==> err == nil
+
+//@ func (k *KVStore) Import(data []byte, f func(uint64, storage.Entry) error) error
+//@   props C11
+//@   ensures #reports_the_recorded_error [C11] internal: result == err
